@@ -20,6 +20,9 @@ THEOREMS = [
     "MoreExec.WakeProto.C03_sleep_invariant",
     "MoreExec.WakeProto.C03_no_overshoot",
     "MoreExec.Retry.C03_retry_no_lost_future_partial",
+    "MoreExec.Retry.C03_retry_no_lost_future",
+    "MoreExec.Retry.C03_retry_no_lost_future_quiescent",
+    "MoreExec.Retry.C03_retry_lost_without_contract",
     "MoreExec.MapFut.C03_cancelled_delegate_ends",
     "MoreExec.Throttle.C07_no_idle_capacity",
     "MoreExec.Poll.C08_prompt",
@@ -33,8 +36,10 @@ BUDGET = {"quick": 150, "thorough": 1500}
 ASSUMPTIONS = [
     "liveness is stated as safety: a worker asleep on a clear event with no producer mid-way has nothing it should be doing, and "
     "virtual time never passes a due time while it sleeps; that the worker then runs is the scheduler's fairness (not modelled)",
-    "the retry no-lost-future invariant is proved for runs without a concurrent cancel() on the retry future itself (_partial); "
-    "with cancels it is covered by the replay and the lost-future monitor",
+    "the retry no-lost-future invariant with client cancels is proved under the delegate contract DC3 as an explicit, decidable "
+    "hypothesis on the run (a delegate whose cancel() returned False is not cancelled afterwards); without it the model admits a "
+    "lost future (witness run proved) - the model lets a foreign thread's `_me_delegate_cancelled` act while a cancel() is in "
+    "progress, which the real code serialises on the future's lock, so the model over-approximates the code there",
     "static configuration (the property excepts dynamic throttle counts)",
 ]
 RULE = ("one third: single-layer RetryExecutor programs replayed through the Retry model and the wake-up protocol model (every "
